@@ -183,8 +183,12 @@ def one_unevaluable(ctx, spec, meta, stored, cell, kind):
     ctx.count('validate_calls')
     ctx.count('not_implemented_cases' if kind == 'nosuch' else 'exception_cases')
     ctx.case((repr(faulty['sheets']), cell, kind))
-    section = 'not-implemented' if kind == 'nosuch' else 'exceptions'
-    listed = [entry[0] for entries in report.get(section, {}).values() for entry in entries]
+    section = 'not-implemented or exceptions'     # the statement accepts either section
+    listed = [entry[0] for sec in ('not-implemented', 'exceptions')
+              for entries in report.get(sec, {}).values() for entry in entries]
+    ctx.count('listed_under:' + ('not-implemented' if any(
+        entry[0] == cell for entries in report.get('not-implemented', {}).values() for entry in entries)
+        else 'exceptions' if cell in listed else 'nowhere'))
     if cell not in listed:
         elsewhere = {k: str(v)[:200] for k, v in report.items() if k != 'mismatch'}
         ctx.violation(f'unevaluable-cell-not-reported/{kind}',
@@ -247,8 +251,9 @@ def replay(ctx, case):
         wb.write_xlsx(spec, path, None)
         comp = ExcelCompiler(filename=path, plugins='vp.plugins')
         report = quiet(comp.validate_calcs)
-        section = 'not-implemented' if case['kind'] == 'nosuch' else 'exceptions'
-        listed = [e[0] for entries in report.get(section, {}).values() for e in entries]
+        section = 'not-implemented or exceptions'
+        listed = [e[0] for sec in ('not-implemented', 'exceptions')
+                  for entries in report.get(sec, {}).values() for e in entries]
         if case['cell'] not in listed:
             ctx.violation(f'unevaluable-cell-not-reported/{case["kind"]}', f'{case["cell"]} not under {section}', case)
         return
